@@ -12,6 +12,7 @@ package c02
 
 import (
 	"bytes"
+	"errors"
 	"fmt"
 	"math/rand"
 	"os"
@@ -171,10 +172,23 @@ func oneRun(c *core.Ctx, r *core.Result, idx int, rng *rand.Rand) {
 	tag := fmt.Sprintf("C02x%dx%d", idx, rng.Intn(1<<20))
 	var eng *live.Engine
 	var err error
+	var failCtr uint64
+	var injected int64
+	injectStoreErrors := cf.Persist && cf.Reset == "" && idx%2 == 0
+	defer func() { r.Count("store_errors_injected", int(atomic.LoadInt64(&injected))) }()
 	port := 0
 	for try := 0; try < 3; try++ {
 		port = live.FreePort()
 		eng, err = live.StartAcceptor(live.Options{Who: "engine", Begin: cf.Begin, Sender: "E" + tag, Target: "P" + tag, Port: port, StoreKind: cf.Store, StoreDir: dir, Extra: extra, R: rec,
+			Fail: func(op string, n int, msg []byte) error {
+				// now and then the store refuses an application message: the send must fail as a whole (error to the
+				// caller, nothing on the wire, the number not used up)
+				if injectStoreErrors && bytes.Contains(msg, []byte("\x0135=D\x01")) && atomic.AddUint64(&failCtr, 1)%61 == 0 {
+					atomic.AddInt64(&injected, 1)
+					return errors.New("injected: store unavailable")
+				}
+				return nil
+			},
 			ToAdmin: func(m *quickfix.Message) {
 				// user code in the callback of a Logon takes a moment: the engine is between choosing the Logon's
 				// number and storing it, which must happen under the same exclusion as every other send
